@@ -14,6 +14,7 @@ import (
 	"strings"
 	"testing"
 	"time"
+	"unsafe"
 )
 
 const c20Interval = time.Minute
@@ -25,6 +26,31 @@ type c20Step struct {
 	Msg   string
 	Delta time.Duration
 	API   int // 0 Print, 1 Printf("%s"), 2 Printf(msg-with-verbs, args)
+	// WallStep (whole seconds): the system's wall clock is set forward/back by this much just
+	// before the step; elapsed time is not affected (readings taken from time.Now only)
+	WallStep time.Duration
+}
+
+// c20TimeRepr mirrors the layout of time.Time (wall, ext, loc; unchanged since Go 1.9).
+type c20TimeRepr struct {
+	wall uint64
+	ext  int64
+	loc  *time.Location
+}
+
+// c20ShiftWall returns the reading the kernel hands out after the wall clock was stepped by d
+// since t's clock was read: same monotonic part, wall seconds moved.
+func c20ShiftWall(t time.Time, d time.Duration) time.Time {
+	if d == 0 {
+		return t
+	}
+	r := (*c20TimeRepr)(unsafe.Pointer(&t))
+	if r.wall&(1<<63) == 0 {
+		return t.Add(d)
+	}
+	secs := int64(r.wall<<1>>31) + int64(d/time.Second)
+	r.wall = r.wall&^(uint64(1<<33-1)<<30) | uint64(secs)<<30
+	return t
 }
 
 type c20Shadow struct {
@@ -55,12 +81,14 @@ func runC20(steps []c20Step, interval time.Duration, start time.Time) (int, int,
 	log.SetOutput(&buf)
 	log.SetFlags(0)
 	now := start
+	var wall time.Duration
 	lim := New(interval)
-	lim.nowFunc = func() time.Time { return now }
+	lim.nowFunc = func() time.Time { return c20ShiftWall(now, wall) }
 	sh := &c20Shadow{}
 	printed, suppressed := 0, 0
 	for i, st := range steps {
 		now = now.Add(st.Delta)
+		wall += st.WallStep
 		buf.Reset()
 		msg := st.Msg
 		switch st.API {
@@ -141,7 +169,7 @@ func TestVerif_C20(t *testing.T) {
 				case 3:
 					api = 2
 				}
-				steps[i] = c20Step{c20Msgs[d%len(c20Msgs)], c20Deltas[d/len(c20Msgs)], api}
+				steps[i] = c20Step{Msg: c20Msgs[d%len(c20Msgs)], Delta: c20Deltas[d/len(c20Msgs)], API: api}
 			}
 			c.Case(myIdx, c20Desc(steps), func() {
 				p, s, kind, detail := runC20(steps, c20Interval, start)
@@ -205,7 +233,7 @@ func TestVerif_C20(t *testing.T) {
 			if rng.Chance(5) {
 				m = hostile[rng.Intn(len(hostile))]
 			}
-			steps[i] = c20Step{m, d, api}
+			steps[i] = c20Step{Msg: m, Delta: d, API: api}
 		}
 		c.Case(myIdx, c20Desc(steps), func() {
 			p, sp, kind, detail := runC20(steps, c20Interval, start)
@@ -216,6 +244,42 @@ func TestVerif_C20(t *testing.T) {
 			c.Count("printed", int64(p))
 			c.Count("suppressed", int64(sp))
 			c.Count("quiet_periods_of_weeks", int64(longGaps))
+			if sp > 0 {
+				c.Nontrivial(vNewHash().U64(uint64(myIdx)).Int(n).Int(p).Sum())
+			}
+		})
+	}
+	// wall-clock steps (NTP sync, date -s on a Pi without RTC) between occurrences of a recurring
+	// message: the interval is elapsed time. Readings come from the real clock (they carry a
+	// monotonic part, as in production); only their wall part is rewritten.
+	nstep := c.N(200, 20000)
+	for s := int64(0); s < nstep; s++ {
+		myIdx := idx
+		idx++
+		if !c.Mine(myIdx) {
+			continue
+		}
+		rng := c.RNG(myIdx)
+		n := rng.Range(10, 400)
+		steps := make([]c20Step, n)
+		nsteps := 0
+		for i := range steps {
+			d := []time.Duration{0, time.Second, c20Interval - time.Second, c20Interval, c20Interval + time.Second, 10 * time.Second}[rng.Intn(6)]
+			steps[i] = c20Step{Msg: []string{"disk full", "disk full", "disk full", "other"}[rng.Intn(4)], Delta: d, API: rng.Intn(3)}
+			if rng.Chance(20) {
+				steps[i].WallStep = []time.Duration{time.Second, -time.Second, 59 * time.Second, -61 * time.Second, time.Hour, -time.Hour, 40 * 24 * time.Hour, -40 * 24 * time.Hour, -400 * 24 * time.Hour}[rng.Intn(9)]
+				nsteps++
+			}
+		}
+		c.Case(myIdx, c20Desc(steps), func() {
+			p, sp, kind, detail := runC20(steps, c20Interval, time.Now())
+			if kind != "" {
+				c.Violation(kind, "wall-clock steps", detail)
+			}
+			c.Count("messages", int64(n))
+			c.Count("printed", int64(p))
+			c.Count("suppressed", int64(sp))
+			c.Count("wall_clock_steps", int64(nsteps))
 			if sp > 0 {
 				c.Nontrivial(vNewHash().U64(uint64(myIdx)).Int(n).Int(p).Sum())
 			}
